@@ -254,7 +254,8 @@ def req_bodies(repo):
     b['recv_response'] = mask_codes(squeeze(cl.fn_body('recv_response')[0]))
     for fn in ('recv_data', 'poll_recv_data', 'recv_trailers', 'poll_recv_trailers', 'split'):
         b['client ' + fn] = squeeze(cl.fn_body(fn)[0])
-    return b
+    from gen_frames import no_trailing_commas
+    return {k: no_trailing_commas(v) for k, v in b.items()}
 
 
 _extract_facts = extract
